@@ -27,6 +27,8 @@ TRUSTED = ["bytes slicing / enumerate semantics", "binascii.a2b_base64, utf-16 c
 
 def check(run):
     prog = run.prog
+    from . import common as _common
+    _common.fresh_hits(run, "C16")
     sm = prog.mod("decoders.shell")
     A = sites.analysis(prog)
     w = lambda n: f"{sm.rel}:{getattr(n, 'lineno', 1)}"   # noqa: E731
